@@ -27,7 +27,7 @@ type Ctx struct {
 	Overlay map[string][]byte // absolute path -> content (self-test only)
 	R       *report.Rep
 
-	node, explorer *load.Program
+	node, explorer  *load.Program
 	nodeErr, expErr error
 }
 
